@@ -879,13 +879,10 @@ func init() {
 				s := append([]byte{0x4d, byte(l - 3), byte((l - 3) >> 8)}, r.bytesN(l-3)...)
 				scripts = append(scripts, s)
 			}
-			if l == 0x10000 || (l == 0xffff && r.tier != "quick") {
-				// one OP_PUSHDATA4 push of exactly l (and, in the thorough tier, 2·l) bytes with separators among the
-				// data, followed by a stand-alone separator
-				for _, n := range []int{l, 2 * l} {
-					if n == 2*l && r.tier == "quick" {
-						continue
-					}
+			if l == 0x10000 {
+				// one OP_PUSHDATA4 push of exactly l bytes with separators among the data, followed by a stand-alone
+				// separator
+				for _, n := range []int{l} {
 					data := r.bytesN(n)
 					for j := 0; j < n; j += 97 {
 						data[j] = 0xab
